@@ -2,6 +2,7 @@ package props
 
 import (
 	"fmt"
+	"math/rand"
 	"strings"
 
 	"github.com/evolbioinfo/gotree/tree"
@@ -227,7 +228,9 @@ func runC06(c *Ctx, idx int, o *Obs) {
 				}
 				res, _ = runCLIOut(c, r, inStdin, append(cl, args...)...)
 			} else {
-				tf := tmpFile(c, "tips.txt", strings.Join(args, "\n")+"\n")
+				content, kind := tipFileContent(r, args)
+				o.Ev("cli_tipfile:"+kind, 1)
+				tf := tmpFile(c, "tips.txt", content)
 				cl := append(append([]string{"prune"}, inArgs...), "-f", tf)
 				if revert {
 					cl = append(cl, "-r")
@@ -278,7 +281,9 @@ func runC06(c *Ctx, idx int, o *Obs) {
 				strings.Join(append(append([]string{}, core[4:]...), "only_in_comp"), ",") + ");\n"
 		}
 		comp := tmpFile(c, "comp.nw", compText)
-		tf := tmpFile(c, "tips.txt", strings.Join(rest, "\n")+"\n")
+		tfContent, tfKind := tipFileContent(r, rest)
+		o.Ev("cli_tipfile:"+tfKind, 1)
+		tf := tmpFile(c, "tips.txt", tfContent)
 		for _, mode := range []string{"comp", "tipfile", "args"} {
 			var cl []string
 			switch mode {
@@ -325,4 +330,32 @@ func runC06(c *Ctx, idx int, o *Obs) {
 	o.Nontrivial = inner && effective > 0
 	o.SetFP(start, strings.Join(fpParts, ";"))
 	_ = tree.NIL_LENGTH
+}
+
+// tipFileContent writes a tip file in one of the layouts the commands accept: one name per line, several
+// comma-separated names per line, or everything on one line that is longer than a 4096-byte read buffer
+// (padded with names that are not in any tree, which pruning ignores).
+func tipFileContent(r *rand.Rand, names []string) (string, string) {
+	switch r.Intn(4) {
+	case 0:
+		var b strings.Builder
+		for i := 0; i < len(names); i += 3 {
+			j := i + 3
+			if j > len(names) {
+				j = len(names)
+			}
+			b.WriteString(strings.Join(names[i:j], ",") + "\n")
+		}
+		return b.String(), "comma-lines"
+	case 1:
+		all := []string{}
+		for i := 0; len(strings.Join(all, ",")) < 6000; i++ {
+			all = append(all, fmt.Sprintf("not_a_tip_of_any_tree_%04d", i))
+		}
+		all = append(all, names...) // the real names come after the 4096th byte
+		return strings.Join(all, ",") + "\n", "one-long-line"
+	case 2:
+		return strings.Join(names, "\n"), "no-final-newline"
+	}
+	return strings.Join(names, "\n") + "\n", "one-per-line"
 }
